@@ -224,14 +224,25 @@ class Ctx:
         self.violations_raw = getattr(self, "violations_raw", [])
         self.violations_raw.append({"sig": sig, "detail": detail, "case": case})
 
-    def trace_validate(self, spec_dir, module, cfg, trace_path, n_events, timeout=1800, dfs=True, what="trace"):
-        """Validate an ndjson trace file with a Trace spec. Returns (accepted, res).
-        The trace spec must read its log from file "trace.ndjson" in its directory and satisfy
-        POSTCONDITION only if the whole log was consumed."""
-        res = self.tlc(spec_dir, module, cfg, workers=1, timeout=timeout, extra_files=[trace_path],
-                       deadlock=False, dfs=dfs, expect_violation=True)
-        accepted = res["rc"] == 0 and not res["violated"]
-        return accepted, res
+    def trace_validate(self, spec_dir, module, cfg, lines, timeout=1800, accept_invariant="TraceNotFinished"):
+        """Validate an ndjson trace (list of JSON lines) with a trace specification that reads
+        "trace.ndjson" and whose invariant `accept_invariant` (l <= Len(TLog)) is violated exactly when
+        the whole log has been consumed. Returns (accepted, info)."""
+        tp = os.path.join(tempfile.mkdtemp(prefix="trace-", dir=self.scratch), "trace.ndjson")
+        with open(tp, "w") as f:
+            f.write("\n".join(lines) + "\n")
+        res = self.tlc(spec_dir, module, cfg, workers=1, timeout=timeout, extra_files=[tp],
+                       deadlock=False, dfs=True, expect_violation=True)
+        out = res["out"]
+        accepted = ("Invariant %s is violated" % accept_invariant) in out
+        other = re.findall(r"Invariant (\w+) is violated", out)
+        info = {"accepted": accepted, "violated_invariants": other, "depth": res["depth"], "generated": res["generated"],
+                "events": len(lines)}
+        if not accepted:
+            m = re.findall(r"^/\\ l = (\d+)", out, re.M)
+            info["tail"] = "\n".join(out.splitlines()[-25:])
+        self.traces += 1
+        return accepted, info
 
 
 def goenv():
